@@ -12,6 +12,7 @@ RULE = ("KLM passes with channel-select sequences (random over {0,1,2}, all 3a, 
         "lines and no 3a line, single line) compared line by line with all-3a and all-3b reference passes of identical "
         "counts and telemetry, and with the Lean model's symbolic delivery; POD six-slot layout. A case = (pass, line); "
         "non-trivial = select value differs from the previous line or is 2; distinct by (format, sequence kind, seed, line)")
+RULE += (" In the thorough tier, and in the quick tier whenever the source differs from the validated baseline, a LONG-PASS stream is added (passes of 1300 .. 12000 lines, just beyond multiples of 256 .. 8192, with the property-relevant event placed at and after such multiples; DESIGN 10.4 round 13).")
 
 
 def sequence(kind, n, rng):
